@@ -1191,4 +1191,130 @@ theorem finderLiteralAfterLoop_sound (lower : Nat → Nat) (l : LitAfterLoop) (S
     intro p k hp1 _ _ hk1 _ _
     omega
 
+/-! ### the dispatch of `findFirstCharDefault` -/
+
+theorem finderSkipSound_congr (rtl : Bool) (n : Nat) (f g : Nat → Bool × Nat) (attempt : Nat → Option (Nat × Nat))
+    (h : ∀ pos, f pos = g pos) (hg : FinderSkipSound rtl n g attempt) : FinderSkipSound rtl n f attempt := by
+  intro pos hpos
+  rw [h pos]
+  exact hg pos hpos
+
+/-- the fact consumed by the helper that `findFirstCharOptimized` selects for the mode.  For the
+    required-landmark chain no fact is stated: the soundness of that helper is an assumption here
+    (oracle N and leg Fm stand in). -/
+def OptFacts (lower : Nat → Nat) (o : FindOpts) (text : List Nat) (attempt : Nat → Option (Nat × Nat)) : Prop :=
+  match o.mode with
+  | .trailingAnchorFixedLengthLtrEnd => ∀ p, p ≤ text.length → attempt p ≠ none → p + o.minLen = text.length
+  | .leadingStringLtr =>
+    ∀ p, p ≤ text.length → attempt p ≠ none → occursAt (stringEq lower false o.leadingPrefix) o.leadingPrefix text p = true
+  | .leadingStringOrdinalIgnoreCaseLtr =>
+    ∀ p, p ≤ text.length → attempt p ≠ none → occursAt (stringEq lower true o.leadingPrefix) o.leadingPrefix text p = true
+  | .leadingStringsLtr => StringsFacts lower o.prefixes o.firstRunes false text attempt
+  | .leadingStringsOrdinalIgnoreCaseLtr => StringsFacts lower o.prefixes o.firstRunes true text attempt
+  | .leadingSetLtr | .fixedDistanceSetsLtr =>
+    (∃ primary rest, o.sets = primary :: rest ∧ primary.set.isSome = true) ∧
+    ∀ p, p ≤ text.length → attempt p ≠ none → fixedSetsMatchAt o.sets text p = true
+  | .fixedDistanceCharLtr => ∀ p, p ≤ text.length → attempt p ≠ none → text[p + o.fixedDistance]? = some o.fixedChar
+  | .fixedDistanceStringLtr =>
+    ∀ p, p ≤ text.length → attempt p ≠ none → occursAt eqExact o.fixedString text (p + o.fixedDistance) = true
+  | .literalAfterLoopLtr =>
+    ∃ l S, o.literalAfterLoop = some l ∧ l.loopSet = some S ∧ LitAfterLoopFact lower l S text attempt
+  | .requiredLandmarkChainLtr =>
+    ∃ ch, o.chain = some ch ∧ FinderSkipSound false text.length (finderLandmarkChain ch text o.minLen) attempt
+  | _ => True
+
+/-- the published facts of the path `findFirstCharDefault` takes are true at every successful attempt -/
+structure FactsSound (f : Facts) (text : List Nat) (textstart : Nat) (attempt : Nat → Option (Nat × Nat)) : Prop where
+  anchors : f.anchors.any = true → AnchorFacts f.anchors text textstart attempt
+  bm : ∀ b, f.bm = some b → BmFact f.lower b f.rtl text attempt
+  opt : f.anchors.any = false → f.bm = none → shouldUse f.opts = true →
+    f.rtl = false ∧ MinLenSound false text.length f.opts.minLen attempt ∧ OptFacts f.lower f.opts text attempt
+  fc : f.anchors.any = false → f.bm = none → shouldUse f.opts = false →
+    ∀ mem, f.fc = some mem → FcFact mem f.rtl text attempt
+
+theorem finderDefault_sound (f : Facts) (text : List Nat) (textstart : Nat) (attempt : Nat → Option (Nat × Nat))
+    (h : FactsSound f text textstart attempt) :
+    FinderSkipSound f.rtl text.length (finderDefault f text textstart) attempt := by
+  by_cases ha : f.anchors.any = true
+  · apply finderSkipSound_congr _ _ _ (finderAnchors f.lower f.anchors f.bm f.rtl text textstart)
+    · intro pos; simp [finderDefault, ha]
+    · cases hr : f.rtl with
+      | false => exact finderAnchors_ltr _ _ _ _ _ _ (h.anchors ha) (fun b hb => by have := h.bm b hb; rwa [hr] at this)
+      | true => exact finderAnchors_rtl _ _ _ _ _ _ (h.anchors ha) (fun b hb => by have := h.bm b hb; rwa [hr] at this)
+  · have ha' : f.anchors.any = false := by simpa using ha
+    cases hb : f.bm with
+    | some b =>
+      apply finderSkipSound_congr _ _ _ (finderBmScan f.lower b f.rtl text)
+      · intro pos; simp [finderDefault, ha', hb]
+      · exact finderSkipSound_of_sound _ _ _ _ (finderBmScan_sound _ _ _ _ _ (h.bm b hb))
+    | none =>
+      by_cases hsu : shouldUse f.opts = true
+      · obtain ⟨hrtl, hM, hO⟩ := h.opt ha' hb hsu
+        rw [hrtl]
+        have hcongr : ∀ g : Nat → Bool × Nat, (∀ pos, finderOptimized f.lower f.opts text pos = some (g pos)) →
+            FinderSkipSound false text.length g attempt →
+            FinderSkipSound false text.length (finderDefault f text textstart) attempt := by
+          intro g hg hs
+          apply finderSkipSound_congr _ _ _ g _ ?_ hs
+          intro pos; simp [finderDefault, ha', hb, hsu, hg pos]
+        unfold OptFacts at hO
+        cases hm : f.opts.mode <;> rw [hm] at hO <;> simp only [] at hO
+        all_goals first
+          | (exfalso; simp [shouldUse, hm] at hsu; done)
+          | skip
+        · -- trailing End anchor with fixed length
+          exact hcongr _ (fun pos => by simp [finderOptimized, hm])
+            (finderSkipSound_of_sound _ _ _ _ (finderTrailingEnd_sound _ _ _ hO))
+        · exact hcongr _ (fun pos => by simp [finderOptimized, hm])
+            (finderSkipSound_of_sound _ _ _ _ (finderLeadingString_sound _ _ _ _ _ _ hO hM))
+        · exact hcongr _ (fun pos => by simp [finderOptimized, hm])
+            (finderSkipSound_of_sound _ _ _ _ (finderLeadingStrings_sound _ _ _ _ _ _ _ hO hM))
+        · exact hcongr _ (fun pos => by simp [finderOptimized, hm])
+            (finderSkipSound_of_sound _ _ _ _ (finderLeadingStrings_sound _ _ _ _ _ _ _ hO hM))
+        · exact hcongr _ (fun pos => by simp [finderOptimized, hm])
+            (finderSkipSound_of_sound _ _ _ _ (finderFixedSets_sound _ _ _ _ hO.1 hO.2 hM))
+        · exact hcongr _ (fun pos => by simp [finderOptimized, hm])
+            (finderSkipSound_of_sound _ _ _ _ (finderFixedChar_sound _ _ _ _ _ hO hM))
+        · exact hcongr _ (fun pos => by simp [finderOptimized, hm])
+            (finderSkipSound_of_sound _ _ _ _ (finderFixedString_sound _ _ _ _ _ hO hM))
+        · exact hcongr _ (fun pos => by simp [finderOptimized, hm])
+            (finderSkipSound_of_sound _ _ _ _ (finderFixedSets_sound _ _ _ _ hO.1 hO.2 hM))
+        · obtain ⟨l, S, hl, hS, hL⟩ := hO
+          exact hcongr _ (fun pos => by simp [finderOptimized, hm, hl])
+            (finderSkipSound_of_sound _ _ _ _ (finderLiteralAfterLoop_sound _ _ _ _ _ _ hS hL hM))
+        · obtain ⟨ch, hch, hS⟩ := hO
+          exact hcongr _ (fun pos => by simp [finderOptimized, hm, hch]) hS
+      · have hsu' : shouldUse f.opts = false := by simpa using hsu
+        cases hfc : f.fc with
+        | none =>
+          apply finderSkipSound_congr _ _ _ finderNoSearch
+          · intro pos; simp [finderDefault, ha', hb, hsu', hfc]
+          · exact finderSkipSound_of_sound _ _ _ _ (finderNoSearch_sound _ _ _)
+        | some mem =>
+          apply finderSkipSound_congr _ _ _ (finderFc mem f.rtl text)
+          · intro pos; simp [finderDefault, ha', hb, hsu', hfc]
+          · exact finderSkipSound_of_sound _ _ _ _ (finderFc_sound _ _ _ _ (h.fc ha' hb hsu' mem hfc))
+
+/-! ### scaffolding for the non-vacuity examples of Props/C03 -/
+
+namespace Demo
+
+/-- a left-to-right attempt table: success exactly at `a` and `b`, with length `len` -/
+theorem succ_of {len a b p : Nat}
+    (h : (fun p => if p = a ∨ p = b then some (p, len) else none : Nat → Option (Nat × Nat)) p ≠ none) :
+    p = a ∨ p = b := by
+  by_cases hp : p = a ∨ p = b
+  · exact hp
+  · simp [hp] at h
+
+/-- a right-to-left attempt table: success exactly at (ending at) 3 and 5, length 2 -/
+theorem succRtl_of {p : Nat}
+    (h : (fun p => if p = 3 ∨ p = 5 then some (p - 2, 2) else none : Nat → Option (Nat × Nat)) p ≠ none) :
+    p = 3 ∨ p = 5 := by
+  by_cases hp : p = 3 ∨ p = 5
+  · exact hp
+  · simp [hp] at h
+
+end Demo
+
 end RegexVerif.Lemmas.Finders
